@@ -172,6 +172,22 @@ pub fn check_bytes(bytes: &[u8], input: &FstInput, full: bool) -> CheckResult {
     vensure!(gotk == keys_of(want), "stream-mismatch", "Set::stream mismatch for {}", short(want));
     let gotk = st.stream().into_bytes();
     vensure!(gotk == keys_of(want), "stream-mismatch", "Set into_bytes mismatch for {}", short(want));
+    // the UTF-8 flavoured helpers, when every key is valid UTF-8
+    if want.iter().all(|p| std::str::from_utf8(&p.0).is_ok()) {
+        let ws: Vec<(String, u64)> = want.iter().map(|p| (String::from_utf8(p.0.clone()).unwrap(), p.1)).collect();
+        match m.stream().into_str_vec() {
+            Ok(g) => vensure!(g == ws, "stream-mismatch", "Map into_str_vec mismatch for {}", short(want)),
+            Err(e) => vfail!("stream-mismatch", "into_str_vec failed on valid UTF-8 keys: {:?}", e),
+        }
+        match m.stream().into_str_keys() {
+            Ok(g) => vensure!(g == ws.iter().map(|x| x.0.clone()).collect::<Vec<_>>(), "stream-mismatch", "Map into_str_keys mismatch for {}", short(want)),
+            Err(e) => vfail!("stream-mismatch", "into_str_keys failed on valid UTF-8 keys: {:?}", e),
+        }
+        match st.stream().into_strs() {
+            Ok(g) => vensure!(g == ws.iter().map(|x| x.0.clone()).collect::<Vec<_>>(), "stream-mismatch", "Set into_strs mismatch for {}", short(want)),
+            Err(e) => vfail!("stream-mismatch", "into_strs failed on valid UTF-8 keys: {:?}", e),
+        }
+    }
     // stream keeps returning None after exhaustion
     let mut s = f.stream();
     while s.next().is_some() {}
